@@ -1016,14 +1016,32 @@ func genC14(o genOpts) error {
 				addIdx(file+"#3", "new-non-standard", map[string]any{"name": name, "raw": hex.EncodeToString(raw)})
 			}
 		}
-		var sb strings.Builder
-		sb.WriteString("From Ucanto Require Import Base Sig Did Crypto Check_C14.\nOpen Scope N_scope.\n")
-		fmt.Fprintf(&sb, "Definition frames : list (bstr * N * option N * option bstr) := %s.\n", coqList(sc))
-		fmt.Fprintf(&sb, "Definition news : list (N * bstr * bstr) := %s.\n", coqList(ns))
-		fmt.Fprintf(&sb, "Definition nonstds : list (bstr * bstr * bstr) := %s.\n", coqList(nn))
-		sb.WriteString("Definition M := Eval vm_compute in map (fun i => (1, i)) (check_sigs frames) ++ map (fun i => (2, i)) (check_newsigs news) ++ map (fun i => (3, i)) (check_nonstds nonstds).\nPrint M.\n")
-		if err := writeFile(o.out, file, sb.String()); err != nil {
-			return err
+		nsh := 1
+		if o.tier == "thorough" {
+			nsh = 16
+		}
+		for s := 0; s < nsh; s++ {
+			var part []string
+			for i := s; i < len(sc); i += nsh {
+				part = append(part, sc[i])
+			}
+			var sb strings.Builder
+			sb.WriteString("From Ucanto Require Import Base Sig Did Crypto Check_C14.\nOpen Scope N_scope.\n")
+			fmt.Fprintf(&sb, "Definition frames : list (bstr * N * option N * option bstr) := %s.\n", coqList(part))
+			if s == 0 {
+				fmt.Fprintf(&sb, "Definition news : list (N * bstr * bstr) := %s.\n", coqList(ns))
+				fmt.Fprintf(&sb, "Definition nonstds : list (bstr * bstr * bstr) := %s.\n", coqList(nn))
+				fmt.Fprintf(&sb, "Definition M := Eval vm_compute in map (fun i => (1, i * %d + %d)) (check_sigs frames) ++ map (fun i => (2, i)) (check_newsigs news) ++ map (fun i => (3, i)) (check_nonstds nonstds).\nPrint M.\n", nsh, s)
+			} else {
+				fmt.Fprintf(&sb, "Definition M := Eval vm_compute in map (fun i => (1, i * %d + %d)) (check_sigs frames).\nPrint M.\n", nsh, s)
+			}
+			name := file
+			if s > 0 {
+				name = fmt.Sprintf("cases_C14_sig_%02d.v", s)
+			}
+			if err := writeFile(o.out, name, sb.String()); err != nil {
+				return err
+			}
 		}
 		stats["sig_frames"] = map[string]any{"inputs": len(inputs), "classes": sigHist, "new_signature": len(ns), "new_non_standard": len(nn)}
 	}
